@@ -63,6 +63,8 @@ impl Window {
     /// Empties the `Window` by writing the data to the file.
     pub fn empty(&mut self) -> Result<(), Box<dyn Error>> {
         for data in &self.elements {
+            #[cfg(feature = "verif")]
+            crate::verif::write_failpoint()?;
             self.file.write_all(data)?;
         }
 
